@@ -460,6 +460,17 @@ class Schema(dict, metaclass=LogicalMeta):
         #
         # return super().update(values)
 
+    def setdefault(self, key: str, default=None):
+        if key in self:
+            return self[key]
+        # go through __setitem__ so that the default is parsed like any assigned value
+        self[key] = default
+        return self[key] if key in self else default
+
+    def __ior__(self, other):
+        self.update(other)
+        return self
+
     # def __copy__(self):
     #     return self.copy()
 
